@@ -104,12 +104,15 @@ __CPROVER_ensures((__CPROVER_return_value == HTP_OK && bstr_len(input) > 0 && C1
 __CPROVER_ensures((__CPROVER_return_value == HTP_OK && g_dup_n == 0) ==>
                   (!C13_S && !C13_Un && !C13_P && !C13_H && !C13_T && !C13_Q && !C13_F && C13_U->path == NULL &&
                    (gk < bstr_len(input) ==> C13_D[gk] == ' ')))
+#if C13_LEVEL >= 1
 /* number of components == number of dup calls; a non-empty target always has a path */
 __CPROVER_ensures((__CPROVER_return_value == HTP_OK && g_dup_n > 0) ==> (C13_U->path != NULL && g_dup_n == C13_iPath + 1 + C13_Q + C13_F))
 /* n = end of the last component = input length minus trailing spaces; every component ends at or before n */
 __CPROVER_ensures((__CPROVER_return_value == HTP_OK && g_dup_n > 0) ==>
                   (C13_N >= 1 && C13_N <= bstr_len(input) && C13_D[C13_N - 1] != ' ' &&
                    ((gk >= C13_N && gk < bstr_len(input)) ==> C13_D[gk] == ' ') && (gj < g_dup_n ==> C13_E(gj) <= C13_N)))
+#endif
+#if C13_LEVEL >= 2
 /* head: scheme starts at 0 and is followed by ':' */
 __CPROVER_ensures((__CPROVER_return_value == HTP_OK && g_dup_n > 0 && C13_S) ==> (g_o0 == 0 && C13_BYTE(g_l0, ':')))
 /* authority only after a scheme, introduced by "//"; user / password / '@' chain */
@@ -136,6 +139,7 @@ __CPROVER_ensures((__CPROVER_return_value == HTP_OK && g_dup_n > 0 && C13_Q) ==>
                   (C13_O(C13_iQ) == C13_E(C13_iPath) + 1 && C13_BYTE(C13_E(C13_iPath), '?')))
 __CPROVER_ensures((__CPROVER_return_value == HTP_OK && g_dup_n > 0 && C13_F) ==>
                   (C13_O(C13_iF) == C13_E(C13_iF - 1) + 1 && C13_BYTE(C13_E(C13_iF - 1), '#')))
+#endif
 ;
 
 #endif
